@@ -13,6 +13,7 @@ import json, os, random, re, shutil, subprocess, sys, time
 
 N = int(sys.argv[1]) if len(sys.argv) > 1 else 50
 SEED = int(sys.argv[2]) if len(sys.argv) > 2 else 1
+MODE = sys.argv[3] if len(sys.argv) > 3 else 'code'     # 'code': src/sx127x.c; 'consts': #define / enumerator values in the three files
 BASE = '/var/tmp/mut'
 REPO = BASE + '/repo'
 VERIF = BASE + '/verif'
@@ -85,8 +86,38 @@ def unit_tests_pass():
         return 'timeout'
     return 'pass' if '10 Tests 0 Failures' in r.stdout else 'fail'
 
+def const_candidates(lines):
+    """one-bit / +-1 changes of the value of a #define or of an enumerator"""
+    cands = []
+    for i, l in enumerate(lines):
+        code = l.split('//')[0]
+        m = re.match(r'^(\s*#define\s+\w+\s+|\s*\w+\s*=\s*)(0b[01]+|0x[0-9a-fA-F]+|\d+)(\s*,?\s*)$', code.rstrip('\n'))
+        if not m:
+            continue
+        lit = m.group(2)
+        v = int(lit, 0)
+        alts = set()
+        for b in range(8):
+            alts.add(v ^ (1 << b))
+        alts.add(v + 1)
+        if v > 0:
+            alts.add(v - 1)
+        for a in sorted(alts):
+            if a < 0 or a == v:
+                continue
+            if lit.startswith('0b'):
+                new = '0b' + format(a, '0%db' % (len(lit) - 2))
+            elif lit.startswith('0x'):
+                new = '0x%02x' % a
+            else:
+                new = str(a)
+            cands.append((i, 'const %s->%s' % (lit, new), m.group(1) + new + m.group(3) + l[len(code.rstrip('\n')):]))
+    return cands
+
 def main():
     setup()
+    if MODE == 'consts':
+        return main_consts()
     src = REPO + '/src/sx127x.c'
     orig = open(src).read()
     lines = orig.splitlines(keepends=True)
@@ -126,6 +157,48 @@ def main():
         open(OUT, 'a').write(json.dumps(rec) + '\n')
         open(src, 'w').write(orig)
     print('done: %d mutants that pass the unit suite' % done)
+
+def main_consts():
+    files = [REPO + '/src/sx127x.c', REPO + '/include/sx127x.h', REPO + '/include/sx127x_registers.h']
+    cands = []
+    origs = {}
+    for f in files:
+        origs[f] = open(f).read()
+        for c in const_candidates(origs[f].splitlines(keepends=True)):
+            cands.append((f,) + c)
+    rnd = random.Random(SEED)
+    rnd.shuffle(cands)
+    props = [c['property_id'] for c in json.load(open(VERIF + '/MANIFEST.json'))['checks']]
+    order = ['C19', 'C09', 'C15', 'C01', 'C10', 'C08', 'C03', 'C04', 'C05', 'C06', 'C07', 'C11', 'C13', 'C16', 'C17', 'C12', 'C14', 'C02', 'C18', 'C20']
+    order = [p for p in order if p in props]
+    env = dict(os.environ, SX_REPO=REPO)
+    done = 0
+    for (f, i, what, newline) in cands:
+        if done >= N:
+            break
+        lines = origs[f].splitlines(keepends=True)
+        old = lines[i]
+        lines[i] = newline
+        open(f, 'w').write(''.join(lines))
+        t0 = time.time()
+        ut = unit_tests_pass()
+        rec = {'file': os.path.basename(f), 'line': i + 1, 'what': what, 'old': old.strip(), 'new': newline.strip(), 'unit': ut, 'detected_by': None}
+        if ut == 'pass':
+            done += 1
+            for p in order:
+                try:
+                    r = sh(['./check.py', p, '--tier', 'quick'], cwd=VERIF, env=env, timeout=1800)
+                except subprocess.TimeoutExpired:
+                    rec['detected_by'] = p; rec['how'] = 'timeout'; break
+                if r.returncode != 0:
+                    rec['detected_by'] = p
+                    v = [l for l in r.stdout.splitlines() if l.startswith('VIOLATION') or l.startswith('finding:')]
+                    rec['how'] = ' | '.join(v[:2])[:300]
+                    break
+        rec['secs'] = round(time.time() - t0, 1)
+        open(OUT, 'a').write(json.dumps(rec) + '\n')
+        open(f, 'w').write(origs[f])
+    print('done: %d constant mutants that pass the unit suite' % done)
 
 if __name__ == '__main__':
     main()
